@@ -955,6 +955,27 @@ def rule_F3(ctx, rid='F3'):
                        'passes the caller\'s generator `%s`' % unparse(arg) if ok else
                        'passes `%s`, which is not the caller\'s own generator' % unparse(arg))
     ctx.require(n_sites >= 30, 'F3 found only %d rng-taking call sites (floor 30)' % n_sites)
+    # the generator object handed out must stay the object the owner keeps using: no rebinding
+    # of self.rng after it has been passed to a constructor / reader in the same function
+    for f in prog.functions.values():
+        if not f.self_name:
+            continue
+        cfg = cfg_of(f)
+        rebinds = [n for n in cfg.nodes if n.kind == 'stmt' and isinstance(n.ast, ast.Assign)
+                   and any(dotted(t) == '%s.rng' % f.self_name for t in n.ast.targets)]
+        passes = []
+        for c in walk_no_nested(f.node):
+            if isinstance(c, ast.Call) and cfg.has(c) and any(
+                    dotted(a) == '%s.rng' % f.self_name
+                    for a in list(c.args) + [k.value for k in c.keywords]):
+                passes.append(cfg.node_of(c).id)
+        for r in rebinds:
+            late = [p for p in passes if cfg.can_reach(p, r.id)]
+            ctx.ob(rid, '%s:generator-identity' % f.qualname, not late, f.where(r.ast),
+                   'self.rng is (re)bound before it is handed to any sub-object' if not late else
+                   'self.rng is rebound after it was handed to a sub-object (line %s): that '
+                   'object keeps the old generator and the streams diverge'
+                   % [cfg.nodes[p].lineno for p in late])
     # reset forwarding
     for c in prog.classes.values():
         r = c.methods.get('reset')
